@@ -16,17 +16,29 @@
             at every use.  DevCache = TRUE models the deviation "build the KeyLocator at the first
             use and hand the same object out afterwards"; TLC must then refute LocatorAtIssue
             (checked by the harness as a sensitivity witness of this module).
-   issued   the certificates so far: [fn, kl] with kl = locator found in the certificate       *)
-EXTENDS Integers, Sequences, TLC
-CONSTANTS NLoc, MaxSteps, DevCache, Fns      \* Fns: the issuing functions enumerated, a subset of AllFns
+   issued   the certificates so far: [fn, kl, iss] with kl = locator found in the certificate, iss = the issuer-id
+            component found in its name: "ref" (what the reference says: self / cert-request / the caller's) or "scribbled"
 
-VARIABLES loc, cache, issued, steps
-vars == <<loc, cache, issued, steps>>
+   Clause "named key-name / issuer-id / version" over histories: what an issuing call RETURNS (the certificate name, a list
+   of components, and the wire) and what it was HANDED (key name, issuer id, key bits) belongs to the caller, who may edit
+   those objects in place afterwards:
+     Scribble(i)     the application overwrites every mutable object of the i-th result (the components of the returned name,
+                     the list itself, the returned buffer) and of the arguments it handed in for it.  In the reference this
+                     changes nothing the library does later and nothing another result shows (dirty stays empty).
+   scr      the results scribbled over so far (indices into issued): their holder no longer expects them to be what they were
+   dirty    only under DevShare = TRUE, the deviation "the fixed issuer-id words (self, cert-request) are library-owned
+            mutable objects and the returned name contains THOSE objects": scribbling over a result of fn makes every later
+            certificate of fn carry the scribbled word.  TLC must then refute NamedAtIssue (sensitivity witness).          *)
+EXTENDS Integers, Sequences, TLC
+CONSTANTS NLoc, MaxSteps, DevCache, DevShare, Fns      \* Fns: the issuing functions enumerated, a subset of AllFns
+
+VARIABLES loc, cache, issued, steps, dirty, scr
+vars == <<loc, cache, issued, steps, dirty, scr>>
 AllFns == {"self_sign", "sign_req", "derive", "new_cert"}
 ASSUME Fns \subseteq AllFns
 NoCache == 0
 
-InitWith(l) == loc = l /\ cache = NoCache /\ issued = <<>> /\ steps = 0
+InitWith(l) == loc = l /\ cache = NoCache /\ issued = <<>> /\ steps = 0 /\ dirty = {} /\ scr = {}
 Init == \E l \in 1..NLoc : InitWith(l)
 
 \* the locator written into the packet being signed now
@@ -34,24 +46,31 @@ Handed == IF DevCache /\ cache # NoCache THEN cache ELSE loc
 Use == cache' = IF cache = NoCache THEN loc ELSE cache      \* (only observable under DevCache)
 
 SetLocator(l) == /\ steps < MaxSteps /\ l \in 1..NLoc /\ l # loc
-                 /\ loc' = l /\ steps' = steps + 1 /\ UNCHANGED <<cache, issued>>
-SignData == /\ steps < MaxSteps /\ Use /\ steps' = steps + 1 /\ UNCHANGED <<loc, issued>>
+                 /\ loc' = l /\ steps' = steps + 1 /\ UNCHANGED <<cache, issued, dirty, scr>>
+SignData == /\ steps < MaxSteps /\ Use /\ steps' = steps + 1 /\ UNCHANGED <<loc, issued, dirty, scr>>
+FixedWord == {"self_sign", "sign_req"}        \* the issuer id is a word of the library's, not the caller's component
 Issue(fn) == /\ steps < MaxSteps /\ fn \in Fns
-             /\ issued' = Append(issued, [fn |-> fn, kl |-> Handed])
-             /\ Use /\ steps' = steps + 1 /\ UNCHANGED loc
+             /\ issued' = Append(issued, [fn |-> fn, kl |-> Handed, iss |-> IF DevShare /\ fn \in dirty THEN "scribbled" ELSE "ref"])
+             /\ Use /\ steps' = steps + 1 /\ UNCHANGED <<loc, dirty, scr>>
+Scribble(i) == /\ steps < MaxSteps /\ i \in 1..Len(issued) /\ i \notin scr /\ scr' = scr \cup {i}
+               /\ dirty' = IF DevShare /\ issued[i].fn \in FixedWord THEN dirty \cup {issued[i].fn} ELSE dirty
+               /\ steps' = steps + 1 /\ UNCHANGED <<loc, cache, issued>>
 
 \* the application re-reads the certificates it was handed earlier (it kept the returned buffers and names):
 \* they are what they were (nothing the signer or the library does later may change them)
 Recheck == UNCHANGED vars
-Next == (\E l \in 1..NLoc : SetLocator(l)) \/ SignData \/ (\E fn \in Fns : Issue(fn))
+Next == (\E l \in 1..NLoc : SetLocator(l)) \/ SignData \/ (\E fn \in Fns : Issue(fn)) \/ (\E i \in 1..MaxSteps : Scribble(i))
 Spec == Init /\ [][Next]_vars
 
-TypeOK == loc \in 1..NLoc /\ cache \in 0..NLoc /\ steps \in 0..MaxSteps
+TypeOK == loc \in 1..NLoc /\ cache \in 0..NLoc /\ steps \in 0..MaxSteps /\ dirty \subseteq FixedWord /\ scr \subseteq 1..Len(issued)
 \* every certificate names the locator configured at the moment it is issued ...
 LocatorAtIssue == [][Len(issued') > Len(issued) => issued'[Len(issued')].kl = loc]_vars
+\* every certificate carries the issuer id the reference says, whatever the caller did to earlier results and arguments ...
+NamedAtIssue == [][Len(issued') > Len(issued) => issued'[Len(issued')].iss = "ref"]_vars
 \* ... and nothing done to the signer later changes a certificate already issued
 IssuedStable == [][Len(issued') >= Len(issued) /\ SubSeq(issued', 1, Len(issued)) = issued]_vars
 \* vacuity witnesses (must be violated)
 W_ChangedBetween == ~(Len(issued) >= 2 /\ issued[1].kl # issued[2].kl)
+W_IssuedAfterScribble == ~(\E i \in scr : \E j \in (i + 1)..Len(issued) : issued[j].fn = issued[i].fn /\ issued[i].fn \in FixedWord /\ issued[j].iss = "ref")
 W_ChangedBeforeFirstUse == ~(Len(issued) = 1 /\ steps = 2 /\ cache = issued[1].kl /\ DevCache = FALSE)
 =============================================================================
